@@ -57,10 +57,7 @@ Theorem C02_checker_sound_spelled_out : forall (g : list (list nat)) (p : list a
        forall b, In b (items m) -> exists x, get (run init p1) b = Live x /\ last x = Some c) /\
   (* actions have the shape Pipeline.Run expects *)
   Forall wf_action p.
-Proof.
-  intros g p H. destruct (checker_sound g p H) as [S R C B M].
-  split; [exact R|]. split; [exact C|]. split; [exact B|]. split; [exact M | exact S].
-Qed.
+Proof. exact checker_sound_spelled_out. Qed.
 Print Assumptions C02_checker_sound_spelled_out.
 
 (* ---------- non-vacuity: the validator accepts what the repaired planner emits ... ---------- *)
